@@ -85,7 +85,7 @@ def run_pauli_exponential(ctx):
 def run(ctx):
     quick = ctx.tier == 'quick'
     ctx.rule = ('beyond the listed properties: Weyl-Heisenberg matrices d = 2, 4, 8 (commutation, order, Fourier relation as TLC invariants); symplectic Gram-Schmidt over F2 for every list of '
-                '%d vectors of F2^4 (number of hyperbolic pairs = rank of the Gram matrix / 2, computed by TLC); Pauli exponential on the axis grid' % (3 if quick else 4))
+                '%d vectors of F2^4 (number of hyperbolic pairs = rank of the Gram matrix / 2, computed by TLC); Pauli exponential on the axis grid' % (4 if quick else 5))
     ctx.assumptions = ['TLC/SANY correct', 'tolerance 1e-9']
     ctx.not_covered = ['everything else outside C01..C20 (optimisers, maximum entropy, unique determination, query algorithms, optimal control)']
     run_qudit(ctx)
